@@ -3,6 +3,7 @@ import Pyvsc.Spec.Bins
 import Mathlib.Tactic.Ring
 import Mathlib.Tactic.Linarith
 import Mathlib.Tactic.SplitIfs
+import Mathlib.Tactic.Tauto
 /-!
 # C10 — coverpoint bins count exactly the samples whose value they contain
 -/
@@ -420,5 +421,190 @@ theorem leaf_hit_iff (l : Leaf) (v : Int) : (l.hit v).isSome ↔ leafSet l v := 
 example : compact [(1, 10), (3, 5)] = [(1, 10)] := by decide
 example : compact [(1, 5), (3, 8)] = [(1, 8)] := by decide
 example : subtract [(0, 3), (10, 20)] [(0, 3), (12, 13)] = some [(10, 11), (14, 20)] := by decide
+
+/-! ### the partition of a bin array (`mk_collection`) -/
+
+def binsSet (bs : List Leaf) (v : Int) : Prop := ∃ b ∈ bs, leafSet b v
+
+theorem binsSet_append (a b : List Leaf) (v : Int) : binsSet (a ++ b) v ↔ binsSet a v ∨ binsSet b v := by
+  simp only [binsSet, List.mem_append]
+  constructor
+  · rintro ⟨x, hx | hx, h⟩
+    · exact Or.inl ⟨x, hx, h⟩
+    · exact Or.inr ⟨x, hx, h⟩
+  · rintro (⟨x, hx, h⟩ | ⟨x, hx, h⟩)
+    · exact ⟨x, Or.inl hx, h⟩
+    · exact ⟨x, Or.inr hx, h⟩
+
+theorem den_append' (a b : RL) (v : Int) : Den (a ++ b) v ↔ Den a v ∨ Den b v := by
+  simp only [Den, List.mem_append]
+  constructor
+  · rintro ⟨x, hx | hx, h⟩
+    · exact Or.inl ⟨x, hx, h⟩
+    · exact Or.inr ⟨x, hx, h⟩
+  · rintro (⟨x, hx, h⟩ | ⟨x, hx, h⟩)
+    · exact ⟨x, Or.inl hx, h⟩
+    · exact ⟨x, Or.inr hx, h⟩
+
+theorem den_single (a b v : Int) : Den [(a, b)] v ↔ a ≤ v ∧ v ≤ b := by simp [Den]
+
+theorem den_nil' (v : Int) : Den [] v ↔ False := by simp [Den]
+
+theorem binsSet_single (x : Leaf) (v : Int) : binsSet [x] v ↔ leafSet x v := by simp [binsSet]
+
+theorem split_range (a b n v : Int) (h1 : 0 < n) (h2 : n ≤ b - a) :
+    ((a ≤ v ∧ v ≤ a + n - 1) ∨ (a + n ≤ v ∧ v ≤ b)) ↔ (a ≤ v ∧ v ≤ b) := by
+  constructor
+  · rintro (h | h) <;> omega
+  · intro h
+    by_cases hv : v ≤ a + n - 1
+    · exact Or.inl ⟨h.1, hv⟩
+    · exact Or.inr ⟨by omega, h.2⟩
+
+/-- the inner loop moves values from the remaining ranges into the bag and loses none -/
+theorem takeN_spec : ∀ (fuel : Nat) (n : Int) (rem acc acc' rem' : RL),
+    takeN fuel n rem acc = some (acc', rem') → ∀ v, (Den acc' v ∨ Den rem' v) ↔ (Den acc v ∨ Den rem v) := by
+  intro fuel
+  induction fuel with
+  | zero => intro n rem acc acc' rem' h; simp [takeN] at h
+  | succ fuel ih =>
+    intro n rem acc acc' rem' h v
+    simp only [takeN] at h
+    by_cases hn : n ≤ 0
+    · simp only [hn, if_true, Option.some.injEq, Prod.mk.injEq] at h
+      obtain ⟨rfl, rfl⟩ := h; rfl
+    · simp only [hn, if_false] at h
+      cases rem with
+      | nil => simp at h
+      | cons r rest =>
+        simp only at h
+        by_cases hr : r.2 - r.1 < n
+        · simp only [hr, if_true] at h
+          rw [ih _ _ _ _ _ h v]
+          simp only [den_append', den_cons, den_nil', or_false]
+          tauto
+        · simp only [hr, if_false, Option.some.injEq, Prod.mk.injEq] at h
+          obtain ⟨rfl, rfl⟩ := h
+          have sp := split_range r.1 r.2 n v (by omega) (by omega)
+          simp only [den_append', den_cons, den_nil', or_false]
+          tauto
+
+theorem headBin_set (c : Bool) (nm : String) (a b vpb v : Int) :
+    leafSet (if c then Leaf.rng nm a (a + vpb - 1) else Leaf.bag nm [(a, b)]) v ↔
+      (if c then (a ≤ v ∧ v ≤ a + vpb - 1) else (a ≤ v ∧ v ≤ b)) := by
+  cases c <;> simp [leafSet, Den]
+
+/-- the outer loop: what the bins hold plus what remains is what was there -/
+theorem partLoop_spec (name : String) (vpb : Int) (hv : 1 ≤ vpb) (haveLeft : Bool) (nBins : Nat) :
+    ∀ (k : Nat) (rem : RL) (idx : Nat) (bins : List Leaf) (rem' : RL) (bins' : List Leaf),
+    partLoop name vpb haveLeft nBins k rem idx bins = some (rem', bins') →
+    (∀ v, (binsSet bins' v ∨ Den rem' v) ↔ (binsSet bins v ∨ Den rem v)) ∧ bins'.length = bins.length + k := by
+  intro k
+  induction k with
+  | zero =>
+    intro rem idx bins rem' bins' h
+    simp only [partLoop, Option.some.injEq, Prod.mk.injEq] at h
+    obtain ⟨rfl, rfl⟩ := h
+    exact ⟨fun v => Iff.rfl, by simp⟩
+  | succ k ih =>
+    intro rem idx bins rem' bins' h
+    simp only [partLoop] at h
+    cases rem with
+    | nil => simp at h
+    | cons r rest =>
+      simp only at h
+      by_cases hs : r.2 - r.1 + 1 ≥ vpb
+      · simp only [hs, if_true] at h
+        obtain ⟨i1, i2⟩ := ih _ _ _ _ _ h
+        refine ⟨fun v => ?_, by simp at i2 ⊢; omega⟩
+        rw [i1 v, binsSet_append, binsSet_single, headBin_set]
+        generalize (decide (nBins - (k + 1) + 1 < nBins) || !haveLeft) = c
+        by_cases hgt : r.2 - r.1 + 1 > vpb
+        · have sp := split_range r.1 r.2 vpb v (by omega) (by omega)
+          simp only [hgt, if_true, den_cons]
+          cases c <;> simp only [Bool.false_eq_true, if_false, if_true] <;> tauto
+        · have e : r.1 + vpb - 1 = r.2 := by omega
+          simp only [hgt, if_false, den_cons, e]
+          cases c <;> simp only [Bool.false_eq_true, if_false, if_true] <;> tauto
+      · simp only [hs, if_false] at h
+        cases ht : takeN (rest.length + 2) (vpb - (r.2 - r.1 + 1)) rest [(r.1, r.2)] with
+        | none => rw [ht] at h; simp at h
+        | some p =>
+          obtain ⟨acc, rem2⟩ := p
+          rw [ht] at h
+          simp only at h
+          obtain ⟨i1, i2⟩ := ih _ _ _ _ _ h
+          refine ⟨fun v => ?_, by simp at i2 ⊢; omega⟩
+          rw [i1 v, binsSet_append, binsSet_single]
+          have t := takeN_spec _ _ _ _ _ _ ht v
+          rw [den_single] at t
+          simp only [leafSet, den_cons]
+          tauto
+
+theorem addLeftover_spec (bins : List Leaf) (rem : RL) (bins' : List Leaf) (h : addLeftover bins rem = some bins') :
+    (∀ v, binsSet bins' v ↔ (binsSet bins v ∨ Den rem v)) ∧ bins'.length = bins.length := by
+  unfold addLeftover at h
+  by_cases he : rem.isEmpty = true
+  · simp only [he, if_true, Option.some.injEq] at h
+    subst h
+    have : rem = [] := by simpa using he
+    subst this
+    exact ⟨fun v => by simp [Den], rfl⟩
+  · have he' : rem.isEmpty = false := by simpa using he
+    simp only [he', Bool.false_eq_true, if_false] at h
+    cases hr : bins.reverse with
+    | nil => rw [hr] at h; simp at h
+    | cons last before =>
+      rw [hr] at h
+      cases last with
+      | bag n rl =>
+        simp only [Option.some.injEq] at h
+        subst h
+        have hb : bins = before.reverse ++ [Leaf.bag n rl] := by
+          have := congrArg List.reverse hr
+          simpa using this
+        refine ⟨fun v => ?_, by rw [hb]; simp⟩
+        rw [hb, binsSet_append, binsSet_append]
+        have e1 : binsSet [Leaf.bag n (rl ++ rem)] v ↔ Den rl v ∨ Den rem v := by
+          simp [binsSet, leafSet, den_append']
+        have e2 : binsSet [Leaf.bag n rl] v ↔ Den rl v := by simp [binsSet, leafSet]
+        rw [e1, e2]; tauto
+      | _ => simp at h
+
+/-- **The partition of a bin array loses and adds no value.**  When `mk_collection` splits a value
+    list into fewer bins than it has values, the bins together hold exactly the values of the list,
+    and there are exactly as many bins as requested. -/
+theorem mkCollection_partition (name : String) (rl : RL) (nBins : Int) (hlt : nBins < nValues rl)
+    (b : BinM) (h : mkCollection name rl nBins = some b) :
+    ∃ bins, b = BinM.coll name bins ∧ (bins.length : Int) = nBins ∧ ∀ v, binsSet bins v ↔ Den rl v := by
+  unfold mkCollection at h
+  simp only [hlt, if_true] at h
+  by_cases h0 : nBins ≤ 0
+  · simp [h0] at h
+  · simp only [h0, if_false] at h
+    have hpos : 0 < nBins := by omega
+    have hv : 1 ≤ nValues rl / nBins := by
+      have : nBins * 1 ≤ nValues rl := by omega
+      exact (Int.le_ediv_iff_mul_le hpos).mpr (by omega)
+    cases hp : partLoop name (nValues rl / nBins) (nValues rl % nBins != 0) nBins.toNat nBins.toNat rl 0 [] with
+    | none => rw [hp] at h; simp at h
+    | some p =>
+      obtain ⟨rem, bins⟩ := p
+      rw [hp] at h
+      simp only at h
+      cases ha : addLeftover bins rem with
+      | none => rw [ha] at h; simp at h
+      | some bins' =>
+        rw [ha] at h
+        simp only [Option.map_some, Option.some.injEq] at h
+        obtain ⟨p1, p2⟩ := partLoop_spec name _ hv _ _ _ _ _ _ _ _ hp
+        obtain ⟨a1, a2⟩ := addLeftover_spec _ _ _ ha
+        refine ⟨bins', h.symm, ?_, fun v => ?_⟩
+        · rw [a2, p2]; simp; omega
+        · rw [a1 v, p1 v]
+          simp [binsSet]
+
+example : (nValues [(1, 12)] : Int) = 12 := by decide
+example : (mkCollection "a" [(1, 5), (8, 12)] 3).isSome = true := by decide
 
 end Pyvsc.C10
